@@ -1,6 +1,6 @@
 """C11 -- windowed RMS (spec/Rms.tla), std and no_std builds;
 C19 -- rectifiers and envelope follower (spec/Envelope.tla)."""
-import json, os, re
+import json, os, re, shutil
 from lib import kit
 
 
@@ -39,13 +39,30 @@ def _need_actions(out, module, names):
             raise kit.ToolError("vacuity: action %s of %s never taken" % (n, module))
 
 
-def _judge(ctx, hx, stim, name, module, comp, max_lines, jobs=8):
-    tr = os.path.join(ctx.work, "%s_trace.ndjson" % name)
-    rej = ctx.run_stimuli(hx, stim, tr, comp)
-    ctx.count_distinct(tr)
-    res = ctx.validate(module, tr, comp=comp, max_lines=max_lines, jobs=jobs)
-    os.remove(tr)
+def _judge(ctx, runs, name, module, max_lines, jobs=8, comp_of=None):
+    """runs = [(binary, stimuli file, component label)].  Every run's trace is appended to ONE file that is
+    judged by a single ctx.validate call (pieces are cut at reset lines and spread over `jobs` JVMs, which
+    uses the cores far better than one validate per run)."""
+    alltr = os.path.join(ctx.work, "%s_trace.ndjson" % name)
+    rej = []
+    with open(alltr, "w") as out:
+        for k, (hx, stim, comp) in enumerate(runs):
+            tr = os.path.join(ctx.work, "%s_%d.ndjson" % (name, k))
+            rej += ctx.run_stimuli(hx, stim, tr, comp)
+            with open(tr) as f:
+                shutil.copyfileobj(f, out)
+            os.remove(tr)
+    ctx.count_distinct(alltr)
+    res = ctx.validate(module, alltr, comp=runs[0][2], max_lines=max_lines, jobs=jobs)
+    os.remove(alltr)
+    for r in res["rejected"] + res["heap"]:
+        if comp_of:
+            r["comp"] = comp_of(r["exec"][0])
     return rej + res["rejected"], res["heap"]
+
+
+def _rms_comp(reset):
+    return "rms_nostd" if reset.get("cfg", {}).get("build") == "no_std" else "rms"
 
 
 def rms_pipeline(ctx, replay=None):
@@ -60,9 +77,8 @@ def rms_pipeline(ctx, replay=None):
         if first.get("comp") != "rms":
             raise kit.ToolError("not a C11 replay file (comp=%s)" % first.get("comp"))
         nostd = first.get("cfg", {}).get("build") == "no_std"
-        r, h = _judge(ctx, hx_ns if nostd else hx_std, replay, "replay", "Trace_Rms",
-                      "rms_nostd" if nostd else "rms", 4000)
-        return r, h
+        return _judge(ctx, [(hx_ns if nostd else hx_std, replay, "rms_nostd" if nostd else "rms")],
+                      "replay", "Trace_Rms", 4000, comp_of=_rms_comp)
     stim = os.path.join(ctx.work, "rms_stim.ndjson")
     out = ctx.mc("MC_Rms", "MC_Rms_%s.cfg" % tier, workers=4, env={"STIM_OUT": stim})
     _need_actions(out, "MC_Rms", ["StepNext", "StepNextSq", "StepSig", "StepSigSq", "StepCurrent", "StepReset"])
@@ -70,12 +86,8 @@ def rms_pipeline(ctx, replay=None):
     ctx.extra["mc_constants"] = {"MaxWin": 3 if tier == "quick" else 4, "inputs": "k/4, k in -2..2", "channels": 1}
     rnd = os.path.join(ctx.work, "rms_rand.ndjson")
     ctx.harness(hx_std, ["gen", str(ctx.seed), tier, rnd, "rms"])
-    for bname, hx, comp in (("std", hx_std, "rms"), ("nostd", hx_ns, "rms_nostd")):
-        for sname, sf in (("tlc", stim), ("random", rnd)):
-            r, h = _judge(ctx, hx, sf, "rms_%s_%s" % (bname, sname), "Trace_Rms", comp, 2500)
-            rej += r
-            heap += h
-    return rej, heap
+    runs = [(hx_std, stim, "rms"), (hx_std, rnd, "rms"), (hx_ns, stim, "rms_nostd"), (hx_ns, rnd, "rms_nostd")]
+    return _judge(ctx, runs, "rms", "Trace_Rms", 2500, comp_of=_rms_comp)
 
 
 def env_pipeline(ctx, replay=None):
@@ -86,7 +98,7 @@ def env_pipeline(ctx, replay=None):
         first = _first_event(replay)
         if first.get("comp") not in ("env", "rect"):
             raise kit.ToolError("not a C19 replay file (comp=%s)" % first.get("comp"))
-        return _judge(ctx, hx, replay, "replay", "Trace_Envelope", "envelope", 4000)
+        return _judge(ctx, [(hx, replay, "envelope")], "replay", "Trace_Envelope", 4000)
     stim = os.path.join(ctx.work, "env_stim.ndjson")
     out = ctx.mc("MC_Envelope", "MC_Envelope_%s.cfg" % tier, workers=4, env={"STIM_OUT": stim})
     _need_actions(out, "MC_Envelope", ["StepIn", "StepSetA", "StepSetR"])
@@ -95,12 +107,7 @@ def env_pipeline(ctx, replay=None):
                                  "gains": "0, 1/2, 3/4", "inputs": "k/4, k in -2..2, three rectifiers"}
     rnd = os.path.join(ctx.work, "env_rand.ndjson")
     ctx.harness(hx, ["gen", str(ctx.seed), tier, rnd, "env"])
-    rej, heap = [], []
-    for sname, sf in (("tlc", stim), ("random", rnd)):
-        r, h = _judge(ctx, hx, sf, "env_%s" % sname, "Trace_Envelope", "envelope", 2000)
-        rej += r
-        heap += h
-    return rej, heap
+    return _judge(ctx, [(hx, stim, "envelope"), (hx, rnd, "envelope")], "env", "Trace_Envelope", 2000)
 
 
 def _breakdown(ctx, rej):
